@@ -338,7 +338,7 @@ class SeqAddItem(SeqEdit):
         v, bi = eng.to_val(st, c.value_or_index), eng.to_val(st, c.by_index)
         by_index = z3.If(bi == missing(c), z3.Not(conforms(v, item_type(st, m))), b_of(bi))
         col1 = coll(c.post, m)
-        return [("self", eng.to_val(c.post, c.res) == m),
+        return [("self", eng.to_val(c.post, c.res) == m), ("fields", z3.And(fld(c.post, m, "attr_spec") == fld(c.pre, m, "attr_spec"), fld(c.post, m, "instance") == fld(c.pre, m, "instance"))),
                 ("container", z3.And(is_ref(col1), c.post.get("cls_of", a_of(col1)) == cid("list"), z3.Implies(absent, a_of(col1) >= st.alloc),
                                      z3.Implies(z3.Not(absent), col1 == coll(st, m)))),
                 ("one-position", z3.Exists([x, idx], z3.And(conforms(x, item_type(st, m)), z3.Or(is_none(idx), is_index(idx)),
@@ -378,7 +378,7 @@ class SeqTransformItem(SeqEdit):
         n1, e1 = self.view(c.post, m)
         p, j = z3.Int("p!ti"), z3.Int("j!ti2")
         v = eng.to_val(st, c.value_or_index)
-        return [("self", eng.to_val(c.post, c.res) == m), ("same-object", coll(c.post, m) == coll(st, m)),
+        return [("self", eng.to_val(c.post, c.res) == m), ("fields", z3.And(fld(c.post, m, "attr_spec") == fld(c.pre, m, "attr_spec"), fld(c.post, m, "instance") == fld(c.pre, m, "instance"))), ("same-object", coll(c.post, m) == coll(st, m)),
                 ("one-position", z3.Or(
                     # the target was found by value but nowhere in the list any more (not reachable: require_pre_existent) -
                     z3.Exists([p], z3.And(p >= 0, p < n0, n1 == n0, conforms(z3.Select(e1, p), item_type(st, m)),
@@ -418,7 +418,7 @@ class SeqRemoveItem(SeqEdit):
                                       z3.ForAll([j], z3.Implies(z3.And(j >= 0, j < q), z3.Select(e1, j) == z3.Select(e0, j))),
                                       z3.ForAll([j], z3.Implies(z3.And(j >= q, j < n1), z3.Select(e1, j) == z3.Select(e0, j + 1))))
         first = lambda q: z3.And(py_eq(z3.Select(e0, q), v), z3.ForAll([j], z3.Implies(z3.And(j >= 0, j < q), z3.Not(py_eq(z3.Select(e0, j), v)))))
-        return [("self", eng.to_val(c.post, c.res) == m), ("same-object", coll(c.post, m) == coll(st, m)),
+        return [("self", eng.to_val(c.post, c.res) == m), ("fields", z3.And(fld(c.post, m, "attr_spec") == fld(c.pre, m, "attr_spec"), fld(c.post, m, "instance") == fld(c.pre, m, "instance"))), ("same-object", coll(c.post, m) == coll(st, m)),
                 ("nothing", z3.Implies(nothing, z3.Implies(coll(st, m) != missing(c), self.same_list(st, c.post, m)))),
                 ("by-index", z3.Implies(z3.And(z3.Not(nothing), by_index), removed_at(norm(as_index(v), n0)))),
                 ("by-value", z3.Implies(z3.And(z3.Not(nothing), z3.Not(by_index)), z3.Exists([p], z3.And(removed_at(p), first(p)))))]
@@ -597,7 +597,7 @@ class MapEdit(MapBase):
         k = z3.Const("k!ok", Val)
         kk = kn(key)
         col1 = coll(c.post, m)
-        return [("self", eng.to_val(c.post, c.res) == m),
+        return [("self", eng.to_val(c.post, c.res) == m), ("fields", z3.And(fld(c.post, m, "attr_spec") == fld(c.pre, m, "attr_spec"), fld(c.post, m, "instance") == fld(c.pre, m, "instance"))),
                 ("container", z3.And(is_ref(col1), c.post.get("cls_of", a_of(col1)) == cid("dict"), z3.Implies(absent, a_of(col1) >= st.alloc), z3.Implies(z3.Not(absent), col1 == coll(st, m)))),
                 ("one-key", z3.And(z3.Select(h1, kk), conforms(z3.Select(v1, kk), item_type(st, m)), conforms(key, key_type(st, m)),
                                    z3.ForAll([k], z3.Implies(k != kk, z3.And(
@@ -673,7 +673,7 @@ class MapRemoveItem(MapEdit):
         h1, v1 = self.dview(c.post, m)
         k = z3.Const("k!rm", Val)
         kk = kn(eng.to_val(st, c.key))
-        return [("self", eng.to_val(c.post, c.res) == m), ("same-object", coll(c.post, m) == coll(st, m)),
+        return [("self", eng.to_val(c.post, c.res) == m), ("fields", z3.And(fld(c.post, m, "attr_spec") == fld(c.pre, m, "attr_spec"), fld(c.post, m, "instance") == fld(c.pre, m, "instance"))), ("same-object", coll(c.post, m) == coll(st, m)),
                 ("existed", z3.Select(h0, kk)), ("gone", z3.Not(z3.Select(h1, kk))),
                 ("others", z3.ForAll([k], z3.Implies(k != kk, z3.And(z3.Select(h1, k) == z3.Select(h0, k),
                                                                      z3.Implies(z3.Select(h0, k), z3.Select(v1, k) == z3.Select(v0, k))))))]
@@ -804,7 +804,7 @@ class SetEdit(SetBase):
         x, k = z3.Const("x!se", Val), z3.Const("k!se", Val)
         col1 = coll(c.post, m)
         drop = z3.And(target != missing(c), replace)
-        return [("self", eng.to_val(c.post, c.res) == m),
+        return [("self", eng.to_val(c.post, c.res) == m), ("fields", z3.And(fld(c.post, m, "attr_spec") == fld(c.pre, m, "attr_spec"), fld(c.post, m, "instance") == fld(c.pre, m, "instance"))),
                 ("container", z3.And(is_ref(col1), c.post.get("cls_of", a_of(col1)) == cid("set"), z3.Implies(absent, a_of(col1) >= st.alloc), z3.Implies(z3.Not(absent), col1 == coll(st, m)))),
                 ("one-element", z3.Exists([x], z3.And(conforms(x, item_type(st, m)), z3.ForAll([k], z3.Select(h1, k) == z3.Or(
                     k == kn(x), z3.And(z3.Not(absent), z3.Select(h0, k), z3.Not(z3.And(drop, k == kn(target)))))))))]
@@ -873,7 +873,7 @@ class SetRemoveItem(SetEdit):
         h0, h1 = self.sview(st, m), self.sview(c.post, m)
         k = z3.Const("k!sr", Val)
         kk = kn(eng.to_val(st, c.item))
-        return [("self", eng.to_val(c.post, c.res) == m), ("same-object", coll(c.post, m) == coll(st, m)), ("existed", z3.Select(h0, kk)),
+        return [("self", eng.to_val(c.post, c.res) == m), ("fields", z3.And(fld(c.post, m, "attr_spec") == fld(c.pre, m, "attr_spec"), fld(c.post, m, "instance") == fld(c.pre, m, "instance"))), ("same-object", coll(c.post, m) == coll(st, m)), ("existed", z3.Select(h0, kk)),
                 ("removed", z3.ForAll([k], z3.Select(h1, k) == z3.And(z3.Select(h0, k), k != kk)))]
 
     def exc_value(self, c):
